@@ -51,6 +51,7 @@ class Stats:
 
 
 QUERY_TIMEOUT_MS = 60000
+MAX_DEPTH = 200   # decisions per path; deeper paths are cut (counted, outside the claim)
 
 
 class Ctx:
@@ -112,6 +113,8 @@ class Ctx:
             self.decisions.append(v)
             self.assume(cond if v else z3.Not(cond))
             return v
+        if len(self.decisions) >= MAX_DEPTH:
+            raise Cut("depth")
         can_t = self.check(cond) == z3.sat
         can_f = self.check(z3.Not(cond)) == z3.sat
         if can_t and can_f:
@@ -213,6 +216,20 @@ def z3_floordiv(a, b):
     return z3.If(z3.And(b < 0, r != 0), q - 1, q)
 
 
+def concretise_quotient(a, b):
+    """floor(a / b) for a symbolic divisor: keeps the arithmetic linear by forking over the
+    value of the quotient (0..bound, then -1..-bound); larger quotients are cut."""
+    c = Ctx.cur
+    if c.branch(b == 0):
+        raise ZeroDivisionError("integer division or modulo by zero (symbolic)")
+    cands = list(range(0, c.bound + 1)) + [-v for v in range(1, c.bound + 1)]
+    for v in cands:
+        cond = z3.If(b > 0, z3.And(v * b <= a, a < (v + 1) * b), z3.And((v + 1) * b < a, a <= v * b))
+        if c.branch(cond):
+            return z3.IntVal(v)
+    raise Cut("quotient>bound")
+
+
 def _num(o):
     o = wrap(o)
     if isinstance(o, SBool):
@@ -296,7 +313,12 @@ class SInt:
         o = _num(o)
         if isinstance(o, SReal):
             return SReal(z3.ToReal(z3.ToInt(z3.ToReal(self.e) / o.e)))
-        return SInt(z3_floordiv(self.e, o.e))
+        b = z3.simplify(o.e)
+        if z3.is_int_value(b):
+            if b.as_long() == 0:
+                raise ZeroDivisionError("integer division or modulo by zero")
+            return SInt(z3_floordiv(self.e, b))
+        return SInt(concretise_quotient(self.e, b))
 
     def __rfloordiv__(self, o):
         return _num(o) // self
@@ -305,13 +327,18 @@ class SInt:
         o = _num(o)
         if isinstance(o, SReal):
             raise Unsupported("int % real")
-        return SInt(self.e - o.e * z3_floordiv(self.e, o.e))
+        q = self // o
+        return SInt(self.e - o.e * q.e)
 
     def __rmod__(self, o):
         return _num(o) % self
 
     def __divmod__(self, o):
-        return (self // o, self % o)
+        o = _num(o)
+        q = self // o
+        if isinstance(q, SReal):
+            raise Unsupported("divmod real")
+        return (q, SInt(self.e - o.e * q.e))
 
     def __rdivmod__(self, o):
         o = _num(o)
